@@ -17,6 +17,7 @@ typedef struct {
     bool has_dtor;
     int dtor_runs;
     bool freed;         /* enclosing allocation went back to the allocator */
+    int alloc_by;       /* which of the two allocators was configured when the block was created */
     int children[MAXCH];/* slots whose reference this block owns (dropped in its dtor) */
     int nch;
     int tag;
@@ -67,10 +68,29 @@ static void dtor_cb(void *p) {
     b->nch = 0;
 }
 
+/* two interchangeable allocators over the accounting table: the harness switches the configured one between sequences
+ * (when no block is alive) and checks that every block is taken from, and handed back to, the allocator configured then */
+static int cur_alloc;                  /* 0 = A, 1 = B: the allocator configured through m_set_memhook */
+static int in_alloc_of = -1, in_free_of = -1;
+static long long n_alloc_by[2], n_free_by[2], n_switches;
+static void *a_malloc(size_t n) { n_alloc_by[0]++; in_alloc_of = 0; return vf_malloc(n); }
+static void *a_calloc(size_t a, size_t b) { n_alloc_by[0]++; in_alloc_of = 0; return vf_calloc(a, b); }
+static void a_free(void *q) { if (q) { n_free_by[0]++; in_free_of = 0; } vf_free(q); }
+static void *b_malloc(size_t n) { n_alloc_by[1]++; in_alloc_of = 1; return vf_malloc(n); }
+static void *b_calloc(size_t a, size_t b) { n_alloc_by[1]++; in_alloc_of = 1; return vf_calloc(a, b); }
+static void b_free(void *q) { if (q) { n_free_by[1]++; in_free_of = 1; } vf_free(q); }
+static void configure_allocator(int which) {
+    int r = which ? m_set_memhook(b_malloc, b_calloc, b_free) : m_set_memhook(a_malloc, a_calloc, a_free);
+    if (r != 0) { printf("FAIL HARNESS/memhook | m_set_memhook failed\n"); exit(2); }
+    if (which != cur_alloc) n_switches++;
+    cur_alloc = which;
+}
+
 static void on_free(void *p, int tag, size_t asize) {
     (void)p; (void)asize;
     if (tag <= 0) return;
     blk_t *b = by_tag(tag);
+    if (b && in_free_of != b->alloc_by) vf_fail("C10/returned-to-other-allocator", "seed=%llu op=%d block size=%zu taken from allocator %c was handed to the free() of allocator %c", seq_seed, op_idx, b->size, 'A' + b->alloc_by, 'A' + in_free_of);
     n_free_seen++;
     if (!b) { vf_fail("C10/free-of-retired-block", "seed=%llu op=%d allocation of an already released block freed again tag=%d", seq_seed, op_idx, tag); return; }
     if (b->refs != 0) vf_fail("C10/freed-while-referenced", "seed=%llu op=%d block size=%zu freed with %d references outstanding (%s)", seq_seed, op_idx, b->size, b->refs, cur_ctx);
@@ -108,8 +128,11 @@ static int new_block(size_t size, bool with_dtor) {
     b->tag = next_tag++;
     vf_alloc_tag = b->tag;
     uint64_t before = vf_alloc_seq;
+    in_alloc_of = -1;
     void *p = m_mem_new(size, with_dtor ? dtor_cb : NULL);
     vf_alloc_tag = 0;
+    b->alloc_by = cur_alloc;
+    if (p && in_alloc_of != cur_alloc) vf_fail("C10/not-from-configured-allocator", "seed=%llu op=%d m_mem_new(%zu) took its memory from allocator %c while %c is the configured one", seq_seed, op_idx, size, in_alloc_of < 0 ? '?' : 'A' + in_alloc_of, 'A' + cur_alloc);
     n_new++;
     if (!p) { vf_fail("C10/new-null", "m_mem_new(%zu) returned NULL", size); return -1; }
     if (vf_alloc_seq != before + 1) vf_fail("C10/new-allocations", "m_mem_new(%zu) made %llu allocator calls, expected 1", size, (unsigned long long)(vf_alloc_seq - before));
@@ -270,7 +293,7 @@ int main(int argc, char **argv) {
     int sweep = argc > 4 ? atoi(argv[4]) : 4096;
     setvbuf(stdout, NULL, _IOFBF, 1 << 16);
     vf_on_free = on_free;
-    if (m_set_memhook(vf_malloc, vf_calloc, vf_free) != 0) { printf("FAIL HARNESS/memhook | m_set_memhook failed\n"); return 2; }
+    configure_allocator(0);
 
     /* exhaustive size sweep: every size 0..sweep, with and without destructor */
     long long swept = 0;
@@ -292,8 +315,15 @@ int main(int argc, char **argv) {
     vf_stat("sizes_swept", swept);
 
     for (int i = 0; i < nseq; i++) {
+        /* quiescent point (nothing alive): re-configure the allocator for about every third sequence */
+        if ((vf_mix(seed, i) % 3) == 0) configure_allocator(!cur_alloc);
         run_sequence(seed * 1000003ULL + i, maxops, i < 3);
     }
+    vf_stat("allocator_switches", n_switches);
+    vf_stat("blocks_from_allocator_A", n_alloc_by[0]);
+    vf_stat("blocks_from_allocator_B", n_alloc_by[1]);
+    if (n_alloc_by[0] != n_free_by[0] || n_alloc_by[1] != n_free_by[1])
+        vf_fail("C10/allocator-balance", "allocator A: %lld taken %lld returned; allocator B: %lld taken %lld returned", n_alloc_by[0], n_free_by[0], n_alloc_by[1], n_free_by[1]);
     vf_stat("sequences", nseq);
     vf_stat("blocks_created", n_new);
     vf_stat("refs_taken", n_ref);
